@@ -47,6 +47,12 @@ Theorem C05_monotone : forall f r m1 m2 e, m1 <= m2 ->
 Proof. exact quantize_monotone. Qed.
 Print Assumptions C05_monotone.
 
+(* ... and for any two inputs whatever their exponents: v1 <= v2 implies q(v1) <= q(v2) *)
+Theorem C05_monotone_any : forall f r a b, dy_leb a b = true ->
+  quantize f r Saturate a <= quantize f r Saturate b.
+Proof. exact quantize_monotone_gen. Qed.
+Print Assumptions C05_monotone_any.
+
 (* and these statements are about what the model of set_val stores (C01) *)
 Theorem C05_model_stores_rounded : forall f r o vs, core_fmt f -> Forall (core_dy f) vs ->
   exists w, set_val_real f r o false (AF64 (map f64_of_core vs)) VFloat = Ok w /\
